@@ -41,7 +41,8 @@ class C19(Spec):
     def gen(self, rng, tier):
         cases = []
         octs = [0, 1, 9, 10, 99, 100, 127, 199, 200, 249, 250, 255]
-        quads = []
+        # the extreme quads by name (255.255.255.255 is INADDR_NONE, the error value of inet_addr)
+        quads = ["255.255.255.255", "0.0.0.0", "255.255.255.254", "0.0.0.1", "254.255.255.255", "255.0.0.0", "0.255.255.255", "127.255.255.255"]
         for _ in range(150 if tier == "quick" else 3000):
             quads.append(".".join(str(rng.choice(octs + [rng.randrange(256)])) for _ in range(4)))
         v6 = ["::1", "::", "2001:db8::1", "2001:0db8:0000:0000:0000:ff00:0042:8329", "fe80::1", "::ffff:192.0.2.1", "1:2:3:4:5:6:7:8",
@@ -85,6 +86,17 @@ class C19(Spec):
         # (open finding C19-inet-aton-forms; named input by input)
         for w in INET_ATON_FORMS:
             self.add(cases, w, "-", "reject")
+        # a NUL inside the text: the C interfaces behind Address stop there (fixed in the fifth round: "1.2.3.4\0junk" was 1.2.3.4,
+        # "*\0" the loopback address)
+        for w in ["1.2.3.4\x00junk", "1.2.3.4\x00:80", "1.2.3.4\x00", "1.2.3\x00.4:80", "\x001.2.3.4", "*\x00", "*\x00x:80", "localhost\x00.example:80",
+                  "localhost\x00", "127.0.0.1\x00:8080", "10.0.0.1:80\x00", "1.2.3.4:8\x000"]:
+            self.add(cases, w, "-", "reject")
+        for w in ["[::1\x00junk]:80", "[::1\x00:2]:80", "[::1]\x00:80", "[\x00::1]:80", "[2001:db8::1\x00]", "[::1]:80\x00"]:
+            self.add(cases, w, pv.hexs(canon6("::1")), "reject")
+        # an address taken from a sockaddr (what the listener gives every peer): the port it carries, in host byte order
+        for fam in "46":
+            for port in [0, 1, 80, 255, 256, 443, 8080, 20480, 65535, 12345]:
+                cases.append("U %s %d" % (fam, port))
         for junk in ["[]", "[]:80", "[]x", "[", "]", "][", "]:80["]:
             self.add(cases, junk, "-", "reject")
         for h in ["127.0.0.1", "*", "localhost"]:
@@ -121,6 +133,12 @@ class C19(Spec):
         if impl.startswith(("CRASH", "HANG")):
             return "net harness %s on %s" % (impl, case)
         t = impl.split()
+        if t[0] == "U":
+            c = case.split()
+            if t[2] != c[2] or t[3] != c[2] or t[4] != "0" or t[5] != "0":
+                return ("an address taken from a sockaddr with port %s reports port %s (IP::getPort %s; IP built from numbers: %s, %s)"
+                        % (c[2], t[2], t[3], t[4], t[5]))
+            return None
         if t[0] == "P":
             txt = pv.unhex(case.split()[1])
             valid = len(txt) > 0 and all(48 <= c <= 57 for c in txt) and int(txt) <= 65535
@@ -148,10 +166,14 @@ class C19(Spec):
         return None
 
     def nontrivial(self, case, impl):
+        if case.startswith("U "):
+            return True
         txt = pv.unhex(case.split()[1])
         return b":" in txt
 
     def kind(self, case, impl):
+        if case.startswith("U "):
+            return "from-sockaddr v" + case.split()[1]
         t = impl.split()
         return " ".join(t[:2]) + (" v" + t[2] if len(t) > 2 and t[0] == "A" else "")
 
